@@ -9,7 +9,11 @@ Init == l = 1 /\ fails = {} /\ stats = [calls |-> 0, nontriv |-> 0, geo |-> 0, s
 F(name, b) == IF b THEN {} ELSE {name}
 (* TLC integers are 32-bit, like fixed.Int26_6: the advance sum of 16 000 glyphs at 4096 px wraps   *)
 (* in Go and overflows in TLC, so AdvSum is evaluated only where the mathematical sum fits.       *)
-SumFits(e) == Len(e.g) * (e.size \div 64 + 1) <= 4000000
+(* The guard is on the recorded values (not on the requested size: a run shaped at a stale scale   *)
+(* must still be judged by the other predicates instead of stopping the validator).               *)
+AbsI(x) == IF x < 0 THEN 0 - x ELSE x
+MaxAdv(e) == FoldLeft(LAMBDA acc, g : IF AbsI(IF e.vert THEN g[6] ELSE g[5]) > acc THEN AbsI(IF e.vert THEN g[6] ELSE g[5]) ELSE acc, 0, e.g)
+SumFits(e) == Len(e.g) = 0 \/ MaxAdv(e) \div 64 + 1 <= 30000000 \div Len(e.g)
 SBad(e) ==
   IF ~Returned(e) THEN {"Returned"}
   ELSE IF e.api = "hb" THEN
